@@ -5,6 +5,7 @@ mod datadom;
 mod graphdom;
 mod graphdom2;
 mod graphrec;
+mod seqdom;
 mod util;
 
 use std::collections::HashMap;
@@ -67,6 +68,7 @@ fn main() {
     match (args.cmd.as_str(), args.domain.as_str()) {
         ("record", "graph") => graphrec::record(&sink, &args),
         ("replay", "graph") => graphrec::replay(&sink, &args),
+        ("record", "seq") => seqdom::record(&sink, &args),
         ("record", "data") => datadom::record(&sink, &args),
         ("replay", "data") => datadom::replay(&sink, &args),
         (c, d) => {
